@@ -72,6 +72,8 @@ def main(argv=None):
                     prop, seed, c0, c, "identical" if same else "DIFFERENT", n if prop != "C20" else len(base["digests"])))
                 if not same:
                     bad += 1
+    import shutil
+    shutil.rmtree(d, ignore_errors=True)
     print("selftest: %s" % ("OK" if not bad else "%d mismatches" % bad))
     sys.exit(1 if bad else 0)
 
